@@ -1,0 +1,7 @@
+//go:build !verif
+
+package jrpc2
+
+// verifPoint marks a lock-free scheduling point for the external verification
+// harness. Without the "verif" build tag it does nothing and is inlined away.
+func verifPoint(string) {}
